@@ -60,7 +60,8 @@ def record_one(job):
     # too close for an unambiguous identification of the index; stage R covers 1e-9 .. 1e-7 at emitted indexes.)
     fdts = rng.uniform(0.02, 0.2) if rng.random() < 0.67 else 10 ** rng.uniform(-7, -1.7)
     Fd = fdts / Ts
-    L = rng.randint(4, 16)
+    # ray counts below, at and above an internal pass size of 16, mostly not multiples of it
+    L = rng.randint(4, 16) if rng.random() < 0.55 else rng.choice([17, 20, 24, 31, 32, 33, 40, 47, 63, 64])
     mir = c14.Mirror(L, seed)
     sh0 = rng.choice(SHAPES)
     budget = job["budget"]          # total number of generated scalar samples per trace
